@@ -555,7 +555,8 @@ func (s *structVM) newChildField(parent *fieldVM, child *fieldVM, toBind bool) *
 				newField := reflect.NewAt(parent.structField.Type, parent.getPtr(ptr))
 				for i := 0; i < parent.ptrDeep; i++ {
 					newField = newField.Elem()
-					if newField.IsNil() {
+					// (not valid: the struct that holds the parent field is itself absent)
+					if !newField.IsValid() || newField.IsNil() {
 						return nil
 					}
 				}
@@ -568,6 +569,9 @@ func (s *structVM) newChildField(parent *fieldVM, child *fieldVM, toBind bool) *
 				}
 				for i := 0; i < parent.ptrDeep; i++ {
 					newField = newField.Elem()
+					if !newField.IsValid() {
+						return reflect.Value{}
+					}
 				}
 				if (newField == reflect.Value{}) || (!initZero && newField.IsNil()) {
 					return reflect.Value{}
@@ -704,7 +708,7 @@ func (f *fieldVM) setUnsupportedGetter() {
 			return nil
 		}
 		v := raw
-		for i := 0; i < f.ptrDeep; i++ {
+		for i := 0; i < f.ptrDeep && v.IsValid(); i++ {
 			v = v.Elem()
 		}
 		for v.Kind() == reflect.Interface {
